@@ -30,8 +30,8 @@ def serdeAccepts : Shape → Doc → Bool
     | _ => false
   | .object c o, d =>
     match d with
-    | .obj ms => serdeFields c ms
-    | .null => o
+    | .obj ms => !c.isEmpty && serdeFields c ms     -- no member: a unit struct, which reads null only
+    | .null => o || c.isEmpty
     | _ => false
   | .oneOf _ o, d => o && d.isNull          -- externally tagged: no bare value is accepted
 termination_by structural s => s
@@ -49,6 +49,10 @@ def serdeFields : Members → List (String × Doc) → Bool
      | none => s.isOptional && !s.isNull) && serdeFields c ms
 termination_by structural c => c
 end
+
+/-- the root item is the bare struct/enum even when the root shape is optional (known finding D22) -/
+def rootAccepts (s : Shape) (d : Doc) : Bool :=
+  if rootOptionalNamed s then serdeAccepts s.asNonOptional d else serdeAccepts s d
 
 mutual
 /-- no member of any object has shape `Null` (type `()`) -/
